@@ -27,6 +27,7 @@ import (
 	"strings"
 	"sync"
 	"sync/atomic"
+	"time"
 
 	"github.com/opencontainers/go-digest"
 	ocispec "github.com/opencontainers/image-spec/specs-go/v1"
@@ -503,13 +504,14 @@ type reference struct {
 	byDigest map[string]stored // content of named files by digest
 	named    []stored
 	noOverwrite bool
+	everTagged  map[string]bool // digests some reference has moved away from
 	pathDigest  map[string]string // path -> digest of the named content written there
 	clobbered   map[string]bool   // digests whose file was overwritten/removed through an aliasing name
 }
 
 func newReference(kind string, u *universe) *reference {
 	r := &reference{kind: kind, u: u, content: map[string]stored{}, tags: map[string]ocispec.Descriptor{},
-		names: map[string]bool{}, byDigest: map[string]stored{}, pathDigest: map[string]string{}, clobbered: map[string]bool{}}
+		names: map[string]bool{}, byDigest: map[string]stored{}, pathDigest: map[string]string{}, clobbered: map[string]bool{}, everTagged: map[string]bool{}}
 	if strings.HasPrefix(kind, "file") {
 		r.isFile = true
 		r.ignore = kind[4] == '1'
@@ -632,7 +634,9 @@ func (r *reference) judge(o Op, res result) *failure {
 			return nil
 		}
 		if r.isFile && r.ignore {
-			if res.err != nil {
+			// the content is discarded; a manifest is still read and verified (to restore
+			// titled successors), so bytes that do not match may be refused
+			if res.err != nil && (valid || !isManifestMT(d.MediaType)) {
 				return fail("push-ignored", "IgnoreNoName push %s returned %v", o, res.err)
 			}
 			return nil
@@ -720,6 +724,9 @@ func (r *reference) judge(o Op, res result) *failure {
 			if res.err != nil {
 				return fail("tag-present", "tag %s failed: %v", o, res.err)
 			}
+			if old, ok := r.tags[o.Ref]; ok && old.Digest != d.Digest {
+				r.everTagged[string(old.Digest)] = true // a reference moved away from this content
+			}
 			r.tags[o.Ref] = d
 		}
 	case "R":
@@ -796,6 +803,9 @@ func (r *reference) judge(o Op, res result) *failure {
 		}
 		if res.err != nil {
 			return fail("delete", "delete of present %s failed: %v", o, res.err)
+		}
+		if r.everTagged[string(d.Digest)] {
+			run.Count("oci/pattern/delete-after-retag")
 		}
 		delete(r.content, r.key(d))
 		for name, td := range r.tags {
@@ -883,8 +893,10 @@ func genUniverse(r *common.Rand, kind string, small bool) *universe {
 // hint is the generator's own guess of what has been pushed / tagged so far (it only
 // steers the distribution; the oracle does not use it).
 type hint struct {
-	pushed []int
-	tagged []string
+	pushed  []int
+	tagged  []string
+	lastTag map[string]int // reference -> node it was tagged to last
+	moved   []int          // nodes that lost a reference to another node (re-tag)
 }
 
 func genOp(r *common.Rand, u *universe, kind string, h *hint) Op {
@@ -947,6 +959,12 @@ func genOp(r *common.Rand, u *universe, kind string, h *hint) Op {
 			o.Ref = string(u.g.Nodes[node].Desc.Digest) // its own digest string, never another node's
 		default:
 			o.Ref = common.Pick(r, u.refs)
+			if len(h.tagged) > 0 && r.Chance(1, 2) {
+				// re-tag a name (never a digest string: that would be another node's digest)
+				if c := common.Pick(r, h.tagged); !strings.HasPrefix(c, "sha256:") {
+					o.Ref = c
+				}
+			}
 		}
 	case w < 78:
 		o.K = "R"
@@ -959,6 +977,9 @@ func genOp(r *common.Rand, u *universe, kind string, h *hint) Op {
 	case w < 98:
 		o.K = "D"
 		likelyPresent()
+		if len(h.moved) > 0 && r.Chance(1, 2) {
+			node = common.Pick(r, h.moved) // delete content whose reference has moved on
+		}
 	default:
 		o.K = "L"
 	}
@@ -978,6 +999,13 @@ func genOp(r *common.Rand, u *universe, kind string, h *hint) Op {
 		h.pushed = append(h.pushed, node)
 	case o.K == "T" && o.Ref != "":
 		h.tagged = append(h.tagged, o.Ref)
+		if h.lastTag == nil {
+			h.lastTag = map[string]int{}
+		}
+		if p, ok := h.lastTag[o.Ref]; ok && p != node {
+			h.moved = append(h.moved, p)
+		}
+		h.lastTag[o.Ref] = node
 	}
 	return o
 }
@@ -1149,6 +1177,21 @@ func concHistory(h histSpec) {
 			report("conc-unexpected-error", fmt.Sprintf("%s => %s", e.op, e.res.tok))
 		}
 	}
+	// the commit of a push is one atomic LoadOrStore on the memory store and on the file store's
+	// fallback: at most one push of a key may succeed
+	if h.Kind == "mem" || strings.HasPrefix(h.Kind, "file0") {
+		okPush := map[string]int{}
+		for _, e := range evs {
+			if e.op.K == "P" && e.res.err == nil && (h.Kind == "mem" || e.op.Name == 0) {
+				okPush[u.keyTok(u.descOf(e.op))]++
+			}
+		}
+		for k, n := range okPush {
+			if n > 1 {
+				report("race-double-push-success", fmt.Sprintf("%d pushes of key %s succeeded", n, k))
+			}
+		}
+	}
 	// quiescent state, read sequentially
 	base := int(clock.Load()) + 1
 	var ptoks []string
@@ -1210,6 +1253,109 @@ func concHistory(h histSpec) {
 	}
 }
 
+// gate releases its readers when all of them have started reading (or after a timeout: an
+// implementation that returns before reading must not hang the others).
+type gate struct {
+	mu      sync.Mutex
+	arrived int
+	want    int
+	ch      chan struct{}
+}
+
+func newGate(n int) *gate { return &gate{want: n, ch: make(chan struct{})} }
+
+func (g *gate) wait() {
+	g.mu.Lock()
+	g.arrived++
+	if g.arrived == g.want {
+		close(g.ch)
+	}
+	g.mu.Unlock()
+	select {
+	case <-g.ch:
+	case <-time.After(30 * time.Millisecond):
+	}
+}
+
+type gatedReader struct {
+	r    io.Reader
+	g    *gate
+	once sync.Once
+}
+
+func (gr *gatedReader) Read(p []byte) (int, error) {
+	gr.once.Do(gr.g.wait)
+	return gr.r.Read(p)
+}
+
+// raceRound: several goroutines push the SAME descriptor at the same moment, their readers
+// held back until every one of them is inside Push.  Exactly one push may succeed on the
+// stores whose commit is an atomic LoadOrStore (memory store, file-store fallback).
+func raceRound(h histSpec) {
+	r := common.NewRand(h.HSeed)
+	u := genUniverse(r, h.Kind, true)
+	t, cleanup := newStore(h.Kind)
+	defer cleanup()
+	id := run.NewID()
+	var shown, toks []string
+	reported := false
+	report := func(sig, msg string) {
+		if reported {
+			return
+		}
+		reported = true
+		run.OracleFail(id, sig, fmt.Sprintf("store=%s race: %s", h.Kind, msg),
+			map[string]any{"store": h.Kind, "mode": "race", "hseed": h.HSeed, "nops": h.NOps, "threads": h.Thr, "history": shown})
+	}
+	var clock atomic.Int64
+	base := 0
+	for round := 0; round < h.NOps; round++ {
+		node := r.Intn(len(u.g.Nodes))
+		o := Op{K: "P", Node: node}
+		if r.Chance(1, 5) {
+			o.Ann = 1 + r.Intn(2)
+		}
+		g := newGate(h.Thr)
+		evs := make([]event, h.Thr)
+		var wg sync.WaitGroup
+		for k := 0; k < h.Thr; k++ {
+			wg.Add(1)
+			go func(k int) {
+				defer wg.Done()
+				inv := int(clock.Add(1))
+				err := t.Push(ctx, u.descOf(o), &gatedReader{r: bytes.NewReader(u.payload(o)), g: g})
+				resp := int(clock.Add(1))
+				evs[k] = event{k, inv, resp, o, result{tok: errTok(err), err: err}}
+			}(k)
+		}
+		wg.Wait()
+		okn := 0
+		for _, e := range evs {
+			shown = append(shown, fmt.Sprintf("round %d t%d[%d,%d] %s => %s", round, e.th, e.inv, e.resp, e.op, e.res.tok))
+			toks = append(toks, fmt.Sprintf("%d:%d:%d:%s=%s", e.th, e.inv, e.resp, u.opTok(e.op), e.res.tok))
+			if e.res.err == nil {
+				okn++
+			} else if !errors.Is(e.res.err, errdef.ErrAlreadyExists) {
+				report("race-unexpected-error", fmt.Sprintf("%s => %s", e.op, e.res.tok))
+			}
+		}
+		run.Count(fmt.Sprintf("race-%s/successes=%d", h.Kind, okn))
+		if okn > 1 {
+			report("race-double-push-success", fmt.Sprintf("%d concurrent pushes of the same descriptor %s all succeeded: pushing content that is already present must be refused", okn, o))
+		}
+		base = int(clock.Load())
+	}
+	var ptoks []string
+	probe := u.probeOps(h.Kind)
+	for i, p := range probe {
+		res := u.apply(t, p)
+		ptoks = append(ptoks, fmt.Sprintf("9:%d:%d:%s=%s", base+1+2*i, base+2+2*i, u.opTok(p), res.tok))
+	}
+	run.Case(id, fmt.Sprintf("lin %s %d %s %s #%s:race:%d:%d:%d", h.Kind, len(probe), strings.Join(toks, " "), strings.Join(ptoks, " "),
+		h.Kind, h.HSeed, h.NOps, h.Thr), "LIN ok")
+	run.Nontrivial("race " + h.Kind + " " + strings.Join(toks, " "))
+}
+
 func min(a, b int) int {
 	if a < b {
 		return a
@@ -1232,7 +1378,14 @@ func main() {
 			if h.Kind == "" || h.NOps == 0 {
 				continue
 			}
-			if h.Mode == "conc" {
+			if h.Mode == "race" {
+				if h.Thr == 0 {
+					h.Thr = 2
+				}
+				for i := 0; i < 5; i++ {
+					raceRound(h)
+				}
+			} else if h.Mode == "conc" {
 				if h.Thr == 0 {
 					h.Thr = 2
 				}
@@ -1255,6 +1408,11 @@ func main() {
 		}
 		for i := 0; i < nseq; i++ {
 			seqHistory(histSpec{Kind: kind, Mode: "seq", HSeed: run.Rand.U64() >> 12, NOps: nops})
+		}
+		if kind == "mem" || kind == "file00" {
+			for i := 0; i < run.Scale(60, 1500); i++ {
+				raceRound(histSpec{Kind: kind, Mode: "race", HSeed: run.Rand.U64() >> 12, NOps: 3 + run.Rand.Intn(3), Thr: 2 + run.Rand.Intn(3)})
+			}
 		}
 		for i := 0; i < nconc; i++ {
 			thr := 2 + run.Rand.Intn(3)
